@@ -113,8 +113,13 @@ func filterSig(want, got []string) string {
 // be routed, and returns the status the server has to answer with.
 func damagePath(c *harness.Ctx, w *World, call *Call) {
 	kind := c.Choose(4, "path-damage")
-	if w.mount == "prefix" && c.Choose(4, "glue-prefix") == 3 {
-		kind = 4
+	if w.mount == "prefix" {
+		switch c.Choose(6, "glue-prefix") {
+		case 3:
+			kind = 4
+		case 5:
+			kind = 5
+		}
 	}
 	call.Mutate = func(req *http.Request, e *Exchange) {
 		p := req.URL.EscapedPath()
@@ -157,6 +162,10 @@ func damagePath(c *harness.Ctx, w *World, call *Call) {
 			if prefix != "" {
 				call.wantStatus, name = 404, "damage-glued-prefix"
 			}
+		case 5: // the mount prefix somewhere in the middle of the path: the path is not below the prefix
+			if prefix != "" {
+				call.wantStatus, name = 404, "damage-prefix-in-the-middle"
+			}
 		case 3: // add a key to a method that takes none
 			if call.Res.Kind == "collection" && !entityLevel {
 				segs = append(segs, "extrakey")
@@ -173,6 +182,9 @@ func damagePath(c *harness.Ctx, w *World, call *Call) {
 		np := prefix + "/" + strings.Join(segs, "/")
 		if name == "damage-glued-prefix" {
 			np = prefix + strings.Join(segs, "/")
+		}
+		if name == "damage-prefix-in-the-middle" {
+			np = "/v9" + np
 		}
 		u := *req.URL
 		u.RawPath = ""
